@@ -6,7 +6,8 @@ import cybuild
 TITLE = "Typed memoryview indexing and slicing match buffer semantics"
 EXTRACTS = ["MemSlice"]
 RULE = ("1-D: every (start, stop, step) with start/stop in [-2n-1, 2n+1] U {None}, step in [-3, 3] U {None}, "
-        "n = 0..6, three base layouts (contiguous, stride 2, negative stride), compile-time slices "
+        "n = 0..6, three base layouts (contiguous, stride 2, negative stride; quick tier: the latter two up to "
+        "n = 4), compile-time slices "
         "(8 have_start/stop/step code shapes) and object slices; every integer index in [-2n-1, 2n+1]. "
         "2-D/3-D: generated index patterns (int / slice / None / Ellipsis per position, C/F/strided/"
         "negative-stride bases, double and int dtypes) with PRNG parameters from the same ranges. A case is "
@@ -36,8 +37,8 @@ ASSUMPTIONS = ["direct dimensions only (suboffsets < 0)", "LP64: Py_ssize_t is 6
 
 # Flags of the model variant that describes the tree under test.  After the proposed fixes
 # (proposed_fixes/C16-*.diff) are applied to /repo set both to 1.
-FX_CLAMP = int(os.environ.get("C16_FX_CLAMP", "0"))     # C16-neg_step_bound_below_minus_len.diff
-FX_CEIL = int(os.environ.get("C16_FX_CEIL", "0"))      # C16-empty_slice_rounds_up.diff
+FX_CLAMP = int(os.environ.get("C16_FX_CLAMP", "1"))     # C16-neg_step_bound_below_minus_len.diff
+FX_CEIL = int(os.environ.get("C16_FX_CEIL", "1"))      # C16-empty_slice_rounds_up.diff
 
 COMMON_SRC = r'''
 import numpy as np
@@ -220,10 +221,12 @@ def memview_type(dtype, ndim, contig_last=False):
     return "%s[%s]" % (dtype, ", ".join(dims))
 
 
-def gen_nd(pats):
-    """pats: list of (name, ctype, ndim, pattern, contig_last)"""
+def gen_nd(pats, nd):
+    """pats: list of (name, ctype, ndim, pattern, contig_last); one module per ndim"""
     L = [HEADER]
     for name, ctype, ndim, pattern, contig in pats:
+        if ndim != nd:
+            continue
         r = pat_result_ndim(pattern, ndim)
         np_ = pat_params(pattern)
         L += ["def %s(object ao, list cases):" % name,
@@ -251,8 +254,7 @@ def gen_nd(pats):
                       ", ".join("b.strides[%d]" % k for k in range(r))),
                   "                        [<Py_ssize_t>b[%s] %s]))" % (sub, loops)]
         L += ["    return ';'.join(out)", ""]
-    L += ["def to_obj2(double[:, :] a):", "    return a", "",
-          "def to_obj3(int[:, :, :] a):", "    return a", "",
+    L += [("def to_obj(double[:, :] a):" if nd == 2 else "def to_obj(int[:, :, :] a):"), "    return a", "",
           "def osweep(object m, object base, list idxs):",
           "    '''object path, any index tuple: described through the buffer protocol'''",
           "    out = []",
@@ -276,7 +278,7 @@ def gen_nd(pats):
           "    return globals()[name](view, cases)", "",
           "def runo(ndim, dtype, shape, layout, idxs):",
           "    big, view = mk(dtype, shape, (layout[0], layout[1]))",
-          "    m = to_obj2(view) if ndim == 2 else to_obj3(view)",
+          "    m = to_obj(view)",
           "    return osweep(m, view, idxs)", ""]
     return "\n".join(L)
 
@@ -548,10 +550,11 @@ def run(ctx):
     quick = ctx.tier == "quick"
     with open(os.path.join(ctx.workdir, "c16_common.py"), "w") as f:
         f.write(COMMON_SRC)
-    pats = make_patterns(ctx.rng, 6 if quick else 30)
+    pats = make_patterns(ctx.rng, 4 if quick else 30)
     specs = [dict(name="c16_1d", source=gen_1d(), workdir=ctx.workdir),
-             dict(name="c16_nd", source=gen_nd(pats), workdir=ctx.workdir)]
-    built = cybuild.build_many(specs, jobs=2)
+             dict(name="c16_nd2", source=gen_nd(pats, 2), workdir=ctx.workdir),
+             dict(name="c16_nd3", source=gen_nd(pats, 3), workdir=ctx.workdir)]
+    built = cybuild.build_many(specs, jobs=3)
     for (so, err), sp in zip(built, specs):
         if err is not None:
             ctx.corr_break("build " + sp["name"], sp["name"], str(err)[:1500], "module builds")
@@ -563,6 +566,8 @@ def run(ctx):
     for n in range(NMAX + 1):
         lo, hi = cases_1d(n)
         for layout in LAYOUTS1:
+            if quick and layout != LAYOUTS1[0] and n > 4:
+                continue            # quick tier: strided/reversed bases up to n = 4 (thorough: all)
             for hs, he, hst in HAVES:
                 name = "sw1_%d%d%d" % (hs, he, hst)
                 calls.append(["c16_1d.run1", [name, "float64", [n], list(layout), lo, hi]])
@@ -617,8 +622,9 @@ def run(ctx):
         compare(ctx, "1d-" + path, inp, view, big, t, tok, ml)
         ctx.case("1d/%s/%s" % (path, stratum_of(t, tok)), inp, sig=(path, n, layout, ix_token(t)))
     ctx.extra.setdefault("exhaustive_domains", []).append(
-        "1-D double[:] n=0..%d x %d layouts: all start/stop in [-2n-1,2n+1] U {None}, step in [-3,3] U {None}, "
-        "8 compile-time code shapes + object slices; all integer indices in [-2n-1,2n+1]" % (NMAX, len(LAYOUTS1)))
+        "1-D double[:] n=0..%d (contiguous base; stride-2 and reversed bases n=0..%d): all start/stop in "
+        "[-2n-1,2n+1] U {None}, step in [-3,3] U {None}, 8 compile-time code shapes + object slices; all integer "
+        "indices in [-2n-1,2n+1]" % (NMAX, 4 if quick else NMAX))
 
     # ---------------- 2-D / 3-D patterns
     per = 25 if quick else 120
@@ -636,14 +642,14 @@ def run(ctx):
             for _ in range(per):
                 params, index = gen_params(ctx.rng, pattern, shape, ndim)
                 cases.append(params); idxs.append(index)
-            calls.append(["c16_nd.runp", [name, dtype, shape, list(layout), cases]])
+            calls.append(["c16_nd%d.runp" % ndim, [name, dtype, shape, list(layout), cases]])
             meta.append(("compile", name, dtype, shape, layout, idxs, pattern))
             # the same index tuples through the object path (no None there: TypeError by design)
             if "n" not in pattern:
                 toks = [enc_index(ix) for ix in idxs]
-                calls.append(["c16_nd.runo", [ndim, dtype, shape, list(layout), toks]])
+                calls.append(["c16_nd%d.runo" % ndim, [ndim, dtype, shape, list(layout), toks]])
                 meta.append(("object", name, dtype, shape, layout, idxs, pattern))
-    res = cybuild.call_cases(ctx.workdir, calls, setup="import c16_nd", alarm=120)
+    res = cybuild.call_cases(ctx.workdir, calls, setup="import c16_nd2, c16_nd3", alarm=120)
     mq, flat = [], []
     for (path, name, dtype, shape, layout, idxs, pattern), r in zip(meta, res):
         s = unstr(r)
